@@ -343,6 +343,61 @@ func genCase(h *rt.H) []string {
 	if len(focus) < 3 {
 		focus = universe
 	}
+	kv := func(name string, v int) string { return fmt.Sprintf("kv %s %d %s", name, v, descr[name][v]) }
+	if h.Chance(0.15) {
+		// profile-ORDER scenario: two profiles define the same label key with different values, an
+		// endpoint / network set that does not set the key lists both, a policy or rule selector depends
+		// on the value, and then ONLY the order of the profile ids changes (first profile wins).
+		pair := rt.Pick(h, []struct {
+			name string
+			a, b int
+		}{{"wep:w0", 6, 7}, {"wep:w0", 7, 6}, {"wep:w1", 4, 5}, {"wep:w1", 5, 4}, {"wep:w2", 4, 5}, {"netset:n0", 4, 5}, {"netset:n0", 5, 4}})
+		pre := []string{
+			kv("plabels:p0", rt.Pick(h, []int{5, 6})), kv("plabels:p1", rt.Pick(h, []int{5, 6})), kv("plabels:p2", rt.Pick(h, []int{0, 5, 6})),
+			kv("tier:default", 1),
+			rt.Pick(h, []string{kv("pol:gnp-a", 7), kv("pol:gnp-b", 7), kv("pol:gnp-a", 2), kv("pol:gnp-b", 8)}),
+		}
+		if h.Bool() { // a second consumer of the label: rules whose selectors become IP sets
+			pre = append(pre, rt.Pick(h, []string{kv("pol:gnp-b", 7), kv("pol:gnp-a", 7), kv("prules:p0", 1), kv("pol:np-c", 1)}))
+		}
+		if pair.name != "wep:w0" && pair.name != "wep:w1" { // make sure some local endpoint keeps the rules active
+			pre = append(pre, kv("wep:w0", rt.Pick(h, []int{6, 7, 1})))
+		}
+		h.Rng.Shuffle(len(pre), func(i, j int) { pre[i], pre[j] = pre[j], pre[i] })
+		ops = append(ops, pre...)
+		if h.Bool() {
+			ops = append(ops, "insync")
+		}
+		ops = append(ops, kv(pair.name, pair.a))
+		if h.Chance(0.7) {
+			ops = append(ops, "flush")
+		}
+		for k := h.Intn(3); k > 0; k-- { // unrelated noise in between
+			e := rt.Pick(h, universe)
+			if strings.HasPrefix(e.name, "plabels:") || strings.HasPrefix(e.name, "pol:") || e.name == pair.name || strings.HasPrefix(e.name, "wep:w0") {
+				continue
+			}
+			ops = append(ops, kv(e.name, h.Intn(len(e.variants))))
+		}
+		ops = append(ops, kv(pair.name, pair.b))
+		if !strings.Contains(strings.Join(ops, ";"), ";insync") {
+			ops = append(ops, "insync")
+		}
+		ops = append(ops, "flush", "check")
+		if h.Bool() {
+			return ops
+		}
+		// otherwise continue with a random tail (in-sync already signalled)
+		n := 3 + h.Intn(15)
+		for i := 0; i < n; i++ {
+			e := rt.Pick(h, focus)
+			ops = append(ops, kv(e.name, h.Intn(len(e.variants))))
+			if h.Chance(0.3) {
+				ops = append(ops, "flush")
+			}
+		}
+		return append(ops, "flush", "check")
+	}
 	n := 5 + h.Intn(45)
 	insyncAt := h.Intn(n + 1)
 	flushMode := h.Intn(4) // 0: after every update, 1: random, 2: only at end, 3: batches
